@@ -235,6 +235,19 @@ def run_history(sc: dict) -> dict:
     async def _await(e):
         return await e
 
+    # dispatch with no running event loop must raise and leave no trace (C14)
+    try:
+        nl_bus = EventBus(name='NL', max_history_size=N)
+        nl_event = X(tag=-2)
+        try:
+            nl_bus.dispatch(nl_event)
+            viol.append(('C14.b', 'dispatch() without a running event loop returned instead of raising'))
+        except RuntimeError:
+            if nl_event.event_id in nl_bus.event_history or (nl_bus.event_queue is not None and nl_bus.event_queue.qsize()):
+                viol.append(('C14.b', 'dispatch() without a running event loop raised but left the event in the history / queue'))
+            info['rejected-no-loop'] += 1
+    except Exception as ex:  # noqa
+        viol.append(('C14.b', f'dispatch() without a running event loop raised {type(ex).__name__}: {ex}'))
     try:
         try:
             loop.run_until_complete(main())
